@@ -387,8 +387,31 @@ pub struct WalkStats {
 /// Compares the functions of `a` and `b` on every FAT cell of the common refinement.
 /// Returns the first disagreement in DFS order (label 0 side first).
 pub fn walk(a: &ModelTree, b: &ModelTree, stats: &mut WalkStats) -> Option<Disagreement> {
+    walk_in_box(a, b, None, stats)
+}
+
+/// The rows |x_j| <= bound.
+pub fn box_rows(dim: usize, bound: f64) -> Vec<Row> {
+    let b = Q::from_f64(bound);
+    let mut rows = Vec::with_capacity(2 * dim);
+    for j in 0..dim {
+        for sign in [1i64, -1] {
+            let mut a = vec![Q::zero(); dim];
+            a[j] = Q::int(sign);
+            rows.push(Row { a, b: b.clone() });
+        }
+    }
+    rows
+}
+
+/// Like [`walk`], restricted to the box |x_j| <= bound. Used in the float regime, where rows that
+/// are opposite up to rounding open wedges 1e16 away that no f64 evaluation can resolve.
+pub fn walk_in_box(a: &ModelTree, b: &ModelTree, bound: Option<f64>, stats: &mut WalkStats) -> Option<Disagreement> {
     assert_eq!(a.in_dim, b.in_dim, "walk needs equal input dimensions");
-    let mut region: Vec<Row> = Vec::new();
+    let mut region: Vec<Row> = match bound {
+        Some(bd) => box_rows(a.in_dim, bd),
+        None => Vec::new(),
+    };
     walk_rec(a.in_dim, &a.root, &b.root, &mut region, None, stats)
 }
 
